@@ -45,14 +45,15 @@ TokVal(kind, i) ==
     [] kind = "float"  -> ToString(i) \o ".5"
     [] kind = "ifloat" -> ToString(i) \o ".0"          \* an integer-valued float (C12)
     [] kind = "empty"  -> ""                           \* the empty quoted string ""
+    [] kind = "same"   -> "same"                       \* the same word wherever it stands (repeated values / subtrees)
     [] OTHER           -> kind
 NumKind(k) == k \in {"int","nint","float","ifloat"}
 Tk(kind, i) == [t |-> kind, v |-> TokVal(kind, i), pv |-> IF NumKind(kind) THEN TokVal(kind, i) ELSE ""]
 Sy(t) == [t |-> t, v |-> t, pv |-> ""]
-IsTermTok(tok) == tok.t \in {"word","quoted","wild","star","regexp","int","nint","float","ifloat","empty"}
+IsTermTok(tok) == tok.t \in {"word","quoted","wild","star","regexp","int","nint","float","ifloat","empty","same"}
 \* what a term token denotes (REF, property C06/C08): a typed leaf
 RLeaf(tok) ==
-  CASE tok.t \in {"word","quoted","empty"} -> [op |-> "LIT", ty |-> "str", v |-> tok.v, sg |-> "x"]
+  CASE tok.t \in {"word","quoted","empty","same"} -> [op |-> "LIT", ty |-> "str", v |-> tok.v, sg |-> "x"]
     [] tok.t = "ifloat"            -> [op |-> "LIT", ty |-> "float", v |-> ToString(CHOOSE k \in 0..400 : ToString(k) \o ".0" = tok.v), sg |-> "p"]
     [] tok.t = "int"               -> [op |-> "LIT", ty |-> "int", v |-> tok.v, sg |-> "p"]
     [] tok.t = "nint"              -> [op |-> "LIT", ty |-> "int", v |-> tok.v, sg |-> "n"]
@@ -92,8 +93,22 @@ FieldList(p, n) ==
       toks == <<f, Sy("COLON"), LP>> \o body \o <<RP>>
   IN Out(toks, [op |-> "IN", l |-> RCol(f), items |-> [i \in 1..n |-> RLeaf(item(i))]], p + n + 1)
 
+\* a value list with repeated values: f:(same OR same) and f:(same OR same OR w)
+DupList(p, n) ==
+  LET f == Tk("word", p)  a == Tk("same", p + 1)  b == Tk("word", p + 2)
+      body == IF n = 2 THEN <<a, Sy("OR"), a>> ELSE <<a, Sy("OR"), a, Sy("OR"), b>>
+      toks == <<f, Sy("COLON"), LP>> \o body \o <<RP>>
+  IN Out(toks, [op |-> "IN", l |-> RCol(f), items |-> IF n = 2 THEN <<RLeaf(a), RLeaf(a)>> ELSE <<RLeaf(a), RLeaf(a), RLeaf(b)>>], p + 3)
 LeafForm(k, p, vp) ==
-  CASE k = "bare"     -> Out(<<Tk("word", p)>>, RLeaf(Tk("word", p)), p + 1)
+  CASE k = "baresame" -> Out(<<Tk("same", p)>>, RLeaf(Tk("same", p)), p + 1)
+    [] k = "feqsame"  -> LET f == Tk("same", p) v == Tk("same", p + 1) IN
+                         Out(<<f, Sy("COLON"), v>>, [op |-> "EQUALS", l |-> RCol(f), r |-> RLeaf(v)], p + 2)
+    [] k = "fduplist" -> DupList(p, 2)
+    [] k = "fduplist3" -> DupList(p, 3)
+    [] k = "frangesame" -> LET f == Tk("word", p) b == Tk("int", p + 1) IN
+                           Out(<<f, Sy("COLON"), Sy("LSQUARE"), b, Sy("TO"), b, Sy("RSQUARE")>>,
+                               [op |-> "RANGE", l |-> RCol(f), lo |-> RLeaf(b), hi |-> RLeaf(b), inc |-> TRUE], p + 2)
+    [] k = "bare"     -> Out(<<Tk("word", p)>>, RLeaf(Tk("word", p)), p + 1)
     [] k = "bareint"  -> Out(<<Tk("int", p)>>, RLeaf(Tk("int", p)), p + 1)
     [] k = "barenint" -> Out(<<Tk("nint", p)>>, RLeaf(Tk("nint", p)), p + 1)
     [] k = "barefloat" -> Out(<<Tk("float", p)>>, RLeaf(Tk("float", p)), p + 1)
